@@ -1,6 +1,6 @@
 (* Extraction of the Wire model for the C07 correspondence driver.
    ExtrOcamlBasic only; no Extract Constant / Extract Inductive of our own. *)
 From Coq Require Import ExtrOcamlBasic.
-From SV Require Import Lib.Bytes Lib.ExtractBase Model.Wire Gen.Consts.
+From SV Require Import Lib.Bytes Lib.ExtractBase Model.Wire Model.WireStart Gen.Consts.
 Extraction "c07_model.ml" extract_anchor encode decode rx_feed_all tx_run hs_run
-  hs_run_single_read hs_spec client_sync server_sync.
+  hs_run_single_read hs_spec client_sync server_sync flush_all.
